@@ -20,8 +20,8 @@ LEAN_MODULES = ["MpfVerif.Props.C10"]
 PROPS_FILE = "MpfVerif/Props/C10.lean"
 GEN = []
 MANIFEST = {
-    "text": "Proof on a Lean model of flippers (single/dual wound, with/without EOS switch, software EOS repulse), autofire coils and kickbacks (timeout protection, re-enable delay, ball search) writing and clearing rows of a platform rule table keyed by (switch, coil): for every configuration whose rule keys are pairwise distinct and every sequence of enable/disable/sw_flip/sw_release/ball-search/switch/hit/lifecycle-event/clock ops, the table holds exactly the rules of the enabled devices, each key once, and every auxiliary switch handler belongs to an enabled device; enable and disable are idempotent; after an event listed in the disable events of every device (ball_will_end, service_mode_entered by default; tilt and game end reach it through ball_will_end) the table is empty and no coil is energised until something enables a device again; a pending autofire re-enable never fires after a disable. The model is tied to flipper.py/autofire.py/kickback.py/platform_controller.py/virtual.py by a correspondence run on real devices of a real machine (with and without a running game) after every op; the oracle checks the platform's rules dict against the enabled devices on every op.",
-    "note": "Trusted: Lean kernel + {propext, Classical.choice, Quot.sound}; the hand-written model Model/Rules.lean (validated only by differential runs); the virtual platform's rules dict stands for the hardware (real platforms' own set/clear implementations are not covered); game flow (which lifecycle events a tilt / drain / game end posts) is taken from the real game and fed to the model as events; asyncio timers via the repo's TimeTravelLoop. Assumes devices do not share a (switch, coil) pair and kickback switches are not shared. Three defects fixed (half-installed device after a refused rule, autofire enabled without a rule, software EOS repulse leaving the coil on after disable).",
+    "text": "Proof on a Lean model of flippers (single/dual wound, with/without EOS switch, software EOS repulse), autofire coils and kickbacks (timeout protection, re-enable delay, ball search) writing and clearing rows of a platform rule table keyed by (switch, coil): for every configuration whose rule keys are pairwise distinct and every sequence of enable/disable/sw_flip/sw_release/ball-search/switch/hit/lifecycle-event/clock ops, the table holds exactly the rules of the enabled devices, each key once, and every auxiliary switch handler belongs to an enabled device; enable and disable are idempotent; after an event listed in the disable events of every device and in no enable events (ball_will_end, service_mode_entered by default; tilt, slam tilt and game end reach ball_will_end through the real game) table and handlers are empty and every device stays disabled until something enables one; after a disable no re-enable delay is pending and the device stays disabled through any later ops that do not enable it. That a disable switches off the coils a flipper energised is proved for the disable step only (_partial); 'no coil of a disabled flipper is energised' as a state invariant is checked by the oracle on the implementation, not proved. The model is tied to flipper.py/autofire.py/kickback.py/platform_controller.py/virtual.py by a correspondence run on real devices of a real machine (with and without a running game) after every op; the oracle checks the platform's rules dict and the registered switch handlers against the enabled devices on every op.",
+    "note": "Trusted: Lean kernel + {propext, Classical.choice, Quot.sound}; the hand-written model Model/Rules.lean (validated only by differential runs); the virtual platform's rules dict stands for the hardware (real platforms' own set/clear implementations are not covered); game flow (which lifecycle events a tilt / drain / game end posts) is taken from the real game and fed to the model as events; asyncio timers via the repo's TimeTravelLoop. Assumes devices do not share a (switch, coil) pair and kickback switches are not shared. Three defects fixed (half-installed flipper after a refused rule, autofire enabled without a rule, software EOS repulse leaving the coil on after disable).",
     "technique": "Lean 4 theorems (invariant + induction over all op sequences) on a hand model + differential correspondence and rule-table oracle on real devices",
     "translated": False,
 }
@@ -869,14 +869,14 @@ def run(ctx):
     try:
         for devs, ops in DIRECTED:
             run_case(ctx, devs, False, ops, model)
-        for i in range(ctx.n(260, 4000)):
+        for i in range(ctx.n(600, 5000)):
             r = ctx.rng("direct", i)
             devs, ops = gen_case(r, False)
             run_case(ctx, devs, False, ops, model)
-        for i in range(ctx.n(60, 1000)):
+        for i in range(ctx.n(150, 1200)):
             devs, ops = gen_eos_case(ctx.rng("eos", i))
             run_case(ctx, devs, False, ops, model)
-        for i in range(ctx.n(70, 1000)):
+        for i in range(ctx.n(160, 1200)):
             r = ctx.rng("game", i)
             devs, ops = gen_case(r, True)
             run_case(ctx, devs, True, ops, model)
